@@ -348,6 +348,7 @@ func ruleEchoBroadcastOrder(c *Ctx, rule string) {
 func runC13(c *Ctx) {
 	ruleSingleTransactions(c, "R13.1")
 	ruleAtomicReplace(c, "R13.2")
+	ruleRestartCoherence(c, "R13.3")
 	c.ranRules["R13.4"] = true
 	ruleCompletedOnlyOnSuccessAs(c, "R13.4")
 	ruleServeAfterDurable(c, "R13.5")
@@ -557,4 +558,33 @@ func ruleNoLocalInputInGroup(c *Ctx, rule string) {
 		}
 	}
 	c.Floor(rule, "asGroup calls in startDKGExecution", n, 1)
+}
+
+// R13.3: what a restart loads belongs to one epoch. The group file and the share are two files written one after the
+// other; the share carries the public polynomial of the epoch it was dealt in (Commits), so the loader can tell a share of
+// another epoch from the right one. Today BeaconProcess.Load compares nothing (known finding F9b): after a crash between the
+// two writes the node resumes with the new group and the old share.
+func ruleRestartCoherence(c *Ctx, rule string) {
+	c.ranRules[rule] = true
+	fn := c.P.Fn("internal/core.(*BeaconProcess).Load")
+	if !c.Anchor(rule, "internal/core.(*BeaconProcess).Load", fn != nil) {
+		return
+	}
+	compares := false
+	for _, f := range withClosures(fn) {
+		for _, ci := range callsIn(f, func(ci ssa.CallInstruction) bool { return true }) {
+			nm := calleeName(ci)
+			// share.Public().Equal(group.PublicKey), or a comparison of the commitments / of a hash of them
+			if strings.HasSuffix(nm, "common/key.DistPublic).Equal") || strings.HasSuffix(nm, "common/key.Share).Public") || strings.HasSuffix(nm, "common/key.Share).PubPoly") {
+				compares = true
+			}
+		}
+		forEachInstr(f, func(_ *ssa.BasicBlock, _ int, in ssa.Instruction) {
+			if fa, ok := in.(*ssa.FieldAddr); ok && fieldName(fa.X.Type(), fa.Field) == "Commits" {
+				compares = true
+			}
+		})
+	}
+	c.Ok(rule, "internal/core.(*BeaconProcess).Load checks that the loaded share belongs to the loaded group", c.P.Pos(fn.Pos()), compares,
+		"no comparison between the share's public polynomial (Commits) and the group's distributed public key on the restart path")
 }
